@@ -147,6 +147,11 @@ def replay_wrapper(model, n=3, cols=LONG, cls="FlowProperties", frame=False, des
                 want = 1 / (t["compressibility"] * t["viscosity"])
                 if np.any(np.abs(a - want) > 1e-12 * np.abs(want)):
                     problems.append(f"alpha column {a.tolist()} != 1/(c mu) {want.tolist()}")
+            if cls != "FlowPropertiesSimple" and "m-scaled" in obj.pvt_props:
+                ms = np.asarray(obj.pvt_props["m-scaled"], dtype=float)
+                got = np.asarray([float(obj.alpha(x)) for x in ms])
+                if np.any(np.abs(got - a) > 1e-12 * np.abs(a)):
+                    problems.append(f"alpha at the nodes' scaled pseudopressures {ms.tolist()} = {got.tolist()} but the alpha column is {a.tolist()} (p_i = {m['pi']!r})")
             try:
                 v = float(obj.alpha(m["q"]))
             except Exception as ex:  # noqa: BLE001
@@ -253,8 +258,14 @@ def job_wrapper(job, n, cols, cls, frame, descending=False, int_cols=()):
             fi = f(pi)
         except ValueError:
             fi = None
+        # the lookup at every table node (also the nodes above the initial pressure) returns that node's column value
+        try:
+            hold["at_nodes"] = [obj.alpha(x) for x in obj.pvt_props["m-scaled"].d] if cls != "FlowPropertiesSimple" else None
+        except (KeyError, AttributeError, TypeError):
+            hold["at_nodes"] = None
         return obj, f(q1), f(q2), fi, obj.alpha(q), changed
 
+    hold = {}
     res = paths(job, run, dom, catch=(ValueError, SS.NonMonotoneAbscissae), max_paths=256)
     normal = 0
     inside = T.b_and(T.b_le(P(ps[0]), P(pi)), T.b_le(P(pi), P(ps[-1])))
@@ -292,6 +303,9 @@ def job_wrapper(job, n, cols, cls, frame, descending=False, int_cols=()):
         job.prove(f"{tag}/alpha(q) within the table's range for every real q[path{k}]", pr.pc + [T.b_or(below, above)],
                   bound=f"{n} rows, q unconstrained", replay=rp)
         job.prove(f"{tag}/alpha(q) positive[path{k}]", pr.pc + [T.b_le0(P(aq))], bound=f"{n} rows", replay=rp)
+        if hold.get("at_nodes") is not None and len(hold["at_nodes"]) == len(al):
+            job.prove(f"{tag}/alpha at every node's scaled pseudopressure is the node's value (also above p_i)[path{k}]",
+                      pr.pc + [T.b_or(*[not_close(g, a, abs_tol=Fraction(0)) for g, a in zip(hold["at_nodes"], al)])], bound=f"{n} rows", replay=rp)
         if "alpha" not in cols or cls == "FlowPropertiesSimple":
             # the simple-liquid wrapper derives its diffusivity from c and mu whatever else the table carries
             cm = [T.b_not(T.b_eq0(T.p_sub(T.p_mul(P(a), P(c * mu)), T.ONE)))
